@@ -538,6 +538,10 @@ impl World {
         }
     }
 
+    /// Step one actor right now (set-up time: a backend that must be listening before the first client can
+    /// possibly be relayed to it).
+    pub fn prime_actor(&mut self, id: usize) { self.step_actor(id); }
+
     /// Run up to `k` actor steps. Returns number executed.
     pub fn run_actors(&mut self, k: u32) -> u32 {
         let mut done = 0;
